@@ -307,7 +307,7 @@ def examples(tier):
 @st.composite
 def lmethod_long_cases(draw, tier):
     n = draw(st.integers(105, 400 if tier == 'quick' else 1200))
-    kind = draw(st.sampled_from(['cliff', 'cliff', 'hyperbola', 'noisy', 'two-knees']))
+    kind = draw(st.sampled_from(['cliff', 'cliff', 'cliff', 'hyperbola', 'noisy', 'two-knees']))
     x = [float(i) for i in range(n)]
     if kind == 'cliff':       # plateau, sharp drop, flat tail: the error profile has an early local minimum
         p1 = draw(st.integers(20, max(21, n - 30)))
@@ -366,5 +366,5 @@ def oracle_lmethod_long(case, rec):
 
 
 SUBS = [Sub('detectors', oracle, strategy=cases, budget={'quick': 6400, 'thorough': 64000}, examples=examples),
-        Sub('lmethod_long', oracle_lmethod_long, strategy=lmethod_long_cases, budget={'quick': 480, 'thorough': 4800}),
+        Sub('lmethod_long', oracle_lmethod_long, strategy=lmethod_long_cases, budget={'quick': 960, 'thorough': 9600}),
         Sub('refine', oracle_refine, strategy=refine_cases, budget={'quick': 48000, 'thorough': 640000})]
